@@ -8,7 +8,7 @@ open GocoinV.Persist
 
 local macro "rf[" n:term ", " id:term "]" : term => `(List.find? (fun (x : BRec) => x.id == $id) (Node.recs $n))
 
-variable {P : BlockId → List Coin → Prop} {base : Disk} {T : List BlockId} {Q : List Block} {s : St}
+variable {P : Snap → Prop} {base : Disk} {T : List BlockId} {Q : List Block} {s : St}
 
 /-! ### NewChainExt -/
 
@@ -169,11 +169,11 @@ theorem clientRecover_inv (h : InvQ ⟨P, base, (· = 0), T, Q, Q⟩ s) :
 
 /-- a state produced by a restart on the running node's directory continues the running node's history -/
 theorem rebase {s s2 : St} {q : List Block} (hs : Hist ⟨P, base, (· = 0), [], Q, Q⟩ s)
-    (h2 : InvQ ⟨P, s.d, (· = 0), [], q, q⟩ s2) (n' : Node)
+    (h2 : InvQ ⟨P, s.d, (· = 0), [], q, q⟩ s2) (n' : Node) (f : Bool)
     (h1 : n'.recs = s2.n.recs) (h2' : n'.tip = s2.n.tip) (h3 : n'.tree = s2.n.tree) (h4 : n'.mem = s2.n.mem)
     (h5 : n'.utxo = s2.n.utxo) (h6 : n'.lastHeight = s2.n.lastHeight) (h7 : n'.dirty = s2.n.dirty)
     (h8 : n'.saving = s2.n.saving) (h9 : n'.queue = s2.n.queue) :
-    InvQ ⟨P, base, (· = 0), [], q, q⟩ { s2 with es := s.es ++ s2.es, n := n' } := by
+    InvQ ⟨P, base, (· = 0), [], q, q⟩ { s2 with es := s.es ++ s2.es, foreign := f, n := n' } := by
   have hb := (h2.setNode n' h1 h2' h3 h4 h5 h6 h7 h8 h9)
   refine ⟨?_, ?_, hb.node, hb.snap, hb.qeq⟩
   · show s2.d = applyAll base (s.es ++ s2.es)
@@ -188,7 +188,7 @@ theorem rebase {s s2 : St} {q : List Block} (hs : Hist ⟨P, base, (· = 0), [],
 
 /-! ### one operation, whole histories -/
 
-theorem step_inv (h : InvQ ⟨P, base, (· = 0), [], Q, Q⟩ s) (hP : P s.n.tip s.n.utxo) (op : Op) :
+theorem step_inv (h : InvQ ⟨P, base, (· = 0), [], Q, Q⟩ s) (hP : P ⟨s.n.tip, s.n.lastHeight, s.n.utxo⟩) (op : Op) :
     ∃ q, InvQ ⟨P, base, (· = 0), [], q, q⟩ (step s op) := by
   cases op with
   | submit b => exact submit_inv h b
@@ -216,10 +216,10 @@ theorem step_inv (h : InvQ ⟨P, base, (· = 0), [], Q, Q⟩ s) (hP : P s.n.tip 
         split at heq
         · cases heq
         · cases heq
-          exact ⟨q, rebase h.toHist h2 _ rfl rfl rfl rfl rfl rfl rfl rfl rfl⟩
+          exact ⟨q, rebase h.toHist h2 _ _ rfl rfl rfl rfl rfl rfl rfl rfl rfl⟩
 
 theorem foldl_step_inv : ∀ (ops : List Op) (s : St) (Q : List Block), InvQ ⟨P, base, (· = 0), [], Q, Q⟩ s →
-    (∀ j, j < ops.length → P ((ops.take j).foldl step s).n.tip ((ops.take j).foldl step s).n.utxo) →
+    (∀ j, j < ops.length → P ⟨((ops.take j).foldl step s).n.tip, ((ops.take j).foldl step s).n.lastHeight, ((ops.take j).foldl step s).n.utxo⟩) →
     ∃ q, InvQ ⟨P, base, (· = 0), [], q, q⟩ (ops.foldl step s)
   | [], _, Q, h, _ => ⟨Q, h⟩
   | op :: rest, s, _, h, hP => by
@@ -236,22 +236,23 @@ theorem init_inv (bigs : List Coin) : InvQ ⟨P, {}, (· = 0), [], [], []⟩ { n
   · exact ⟨fun sn k hk => (by cases hk), fun _ => Or.inr ⟨rfl, rfl, rfl, rfl⟩⟩
 
 /-- "a (tip, unspent set) pair the running node held at an operation boundary" -/
-def PastState (bigs : List Coin) (ops : List Op) (tip : BlockId) (utxo : List Coin) : Prop :=
-  ∃ j, j ≤ ops.length ∧ (run bigs (ops.take j)).n.tip = tip ∧ (run bigs (ops.take j)).n.utxo = utxo
+def PastState (bigs : List Coin) (ops : List Op) (sn : Snap) : Prop :=
+  ∃ j, j ≤ ops.length ∧ (run bigs (ops.take j)).n.tip = sn.tip ∧ (run bigs (ops.take j)).n.utxo = sn.coins ∧
+    (run bigs (ops.take j)).n.lastHeight = sn.height
 
 theorem run_inv (bigs : List Coin) (ops : List Op) :
     ∃ q, InvQ ⟨PastState bigs ops, {}, (· = 0), [], q, q⟩ (run bigs ops) := by
   unfold run
   apply foldl_step_inv ops _ [] (init_inv bigs)
   intro j hj
-  exact ⟨j, by omega, rfl, rfl⟩
+  exact ⟨j, by omega, rfl, rfl, rfl⟩
 
 /-! ### the two end results -/
 
 /-- NewChainExt on the directory left by a crash after ANY k effects of ANY history -/
 theorem crash_reopen' (bigs : List Coin) (ops : List Op) (k : Nat) :
     ∃ s1, openNode (applyAll {} ((run bigs ops).es.take k)) bigs 0 = .ok s1 ∧
-      ((s1.n.tip = 0 ∧ s1.n.utxo = []) ∨ PastState bigs ops s1.n.tip s1.n.utxo) ∧
+      ((s1.n.tip = 0 ∧ s1.n.utxo = [] ∧ s1.n.lastHeight = 0) ∨ PastState bigs ops ⟨s1.n.tip, s1.n.lastHeight, s1.n.utxo⟩) ∧
       inTree s1.n s1.n.tip = true ∧
       (∀ r ∈ s1.d.idx, (∃ b ∈ s1.d.dat, b.id = r.id) ∧ r.invalid = false ∧ (r.parent = 0 ∨ ∃ r' ∈ s1.d.idx, r'.id = r.parent)) ∧
       (∀ b ∈ s1.d.dat, b.parent = 0 ∨ ∃ r ∈ s1.d.idx, r.id = b.parent) := by
@@ -262,9 +263,9 @@ theorem crash_reopen' (bigs : List Coin) (ops : List Op) (k : Nat) :
   have memids : ∀ x, x ∈ ids s1.d → ∃ r ∈ s1.d.idx, r.id = x := by
     intro x hx; simpa [ids] using hx
   refine ⟨s1, ho, ?_, hin, ?_, ?_⟩
-  · rcases hcase with ⟨_, h0, h1', _⟩ | ⟨sn, hl, ht, hu, _⟩
-    · exact Or.inl ⟨h0, h1'⟩
-    · right; rw [ht, hu]; exact (loadSnap_good hd hl).1
+  · rcases hcase with ⟨_, h0, h1', h2'⟩ | ⟨sn, hl, ht, hu, hh⟩
+    · exact Or.inl ⟨h0, h1', h2'⟩
+    · right; rw [ht, hu, hh]; exact (loadSnap_good hd hl).1
   · intro r hr
     refine ⟨hd1.datCovers r.id (by simp only [ids, List.mem_map]; exact ⟨r, hr, rfl⟩), hd1.idxValid r hr, ?_⟩
     exact (hd1.idxClosed r hr).imp (fun x => x) (memids _)
